@@ -87,6 +87,19 @@ class HierarchicalProblem(up.model.problem.Problem):
         }
         new_p._timed_goals = {i: [g for g in gl] for i, gl in self._timed_goals.items()}
         new_p._goals = self._goals[:]
+        # the remaining fields copied by Problem.clone
+        new_p._events = [e.clone() for e in self._events]
+        new_p._processes = [p.clone() for p in self._processes]
+        new_p._trajectory_constraints = self._trajectory_constraints[:]
+        new_p._fluents_assigned = {
+            t: d.copy() for t, d in self._fluents_assigned.items()
+        }
+        new_p._fluents_inc_dec = {
+            t: fs.copy() for t, fs in self._fluents_inc_dec.items()
+        }
+        new_p.epsilon = self._epsilon
+        new_p.discrete_time = self._discrete_time
+        new_p.self_overlapping = self._self_overlapping
         new_p._metrics = []
         for m in self._metrics:
             if m.is_minimize_action_costs():
@@ -94,7 +107,11 @@ class HierarchicalProblem(up.model.problem.Problem):
                 costs: Dict["up.model.Action", "up.model.Expression"] = {
                     new_p.action(a.name): c for a, c in m.costs.items()
                 }
-                new_p._metrics.append(up.model.metrics.MinimizeActionCosts(costs))
+                new_p._metrics.append(
+                    up.model.metrics.MinimizeActionCosts(
+                        costs, default=m.default, environment=self._env
+                    )
+                )
             else:
                 new_p._metrics.append(m)
         new_p._initial_defaults = self._initial_defaults.copy()
